@@ -10,7 +10,8 @@
    to_rust_keep_names, the expansion constants; the lexing of the printed text by proc_macro2 is trusted.
    Excluded by hypothesis and refuted below (they are real deviations of the crate, found again by the oracle):
    half-open integer ranges, OCTET/BIT STRING default literals, complex(Name) without a tag. *)
-From A1 Require Import Base.Res Front.Codegen Front.Attr Front.CodegenProofs.
+From A1 Require Front.IntTy.
+From A1 Require Import Base.Res Gen.Keywords Front.Codegen Front.Attr Front.AttrItem Front.CodegenProofs Front.AttrItemProofs Front.Descr Front.DescrProofs.
 From Coq Require Import String.
 Local Open Scope N_scope.
 
@@ -54,7 +55,181 @@ Example C08_nonvacuous_ref :
   wf_aty (AOpt (ARef (codes "Other") (Some (TApplication 7)))) /\ wf_aty (AStr (SRange 0 255 false) Ia5) /\ wf_aty (ABits SAny).
 Proof. cbn [wf_aty wf_size]. repeat split; try reflexivity; vm_compute; intros H; discriminate H. Qed.
 
+(* ================================================================== the whole attribute (Front/AttrItem.v)
+
+   [print_attr] is RustCodeGenerator::asn_attribute as add_definition / add_struct / add_tuple_struct / add_data_enum call
+   it (kind or type, tag(..), extensible_after(name), const(NAME(value), ..)); [parse_attr c] is AsnAttribute::<C>::parse
+   for the four contexts proc_macro/mod.rs uses (c = CHeader: DefinitionHeader, CTransparent: fields of structs and tuple
+   structs, CChoiceVariant, CEnumVariant).  Tied to the crate by op 3413 (printed tokens and the re-parsed attribute as
+   parse_asn_definition shows it).
+
+   [attr_in_model c a]: the parts are those the context admits (what the generator prints: no const on a header, no
+   extensible_after on a field, neither on a variant), numbers fit i64 / usize, names are identifiers that are not
+   keywords, a SIZE range has two different bounds, ENUMERATED default literals carry mangled names.
+   [Known_C08_attr a]: the type part contains an OCTET/BIT STRING default literal (F08-1), a reference without tag (F08-3)
+   or an integer range with exactly one bound (F08-7) -- refuted above. *)
+Theorem C08_reparse_attribute : forall c a fuel,
+  attr_in_model c a -> ~ Known_C08_attr a -> (attr_depth a < fuel)%nat ->
+  parse_attr c fuel (print_attr a) = Ok a.
+Proof. exact reparse_attribute_classes. Qed.
+
+(* the same with the hypotheses folded into one predicate ([wf_attr] uses [wf_aty] of the type theorem) *)
+Theorem C08_reparse_attribute_wf : forall c a fuel,
+  wf_attr c a -> (attr_depth a < fuel)%nat -> parse_attr c fuel (print_attr a) = Ok a.
+Proof. exact reparse_attribute. Qed.
+
+(* item level (proc_macro/mod.rs): the header kind is recognised, and find_extensible_index finds the member
+   extensible_after(..) names at its position -- for a struct outside F08-2 ([Known_C08_ext_escaped]: the name is one of
+   the generator's KEYWORDS, so the field is emitted with a trailing underscore but named without it), when the emitted
+   member names are pairwise different (C09's subject) *)
+Theorem C08_header_kind : forall k, header_kind (hkind_name k) = Some k.
+Proof. exact header_kind_name. Qed.
+
+Theorem C08_ext_index_struct : forall k names i name,
+  k = HSequence \/ k = HSet ->
+  nth_error names i = Some name -> no_hyphen name -> ~ Known_C08_ext_escaped name ->
+  NoDup (emitted_members k names) ->
+  find_ext_index (Some name) (emitted_members k names) = Ok (Some i).
+Proof. exact ext_index_struct. Qed.
+
+Theorem C08_ext_index_enum : forall k names i name,
+  k = HChoice \/ k = HEnumerated ->
+  nth_error names i = Some name -> gen_variant_name name = name ->
+  NoDup (emitted_members k names) ->
+  find_ext_index (Some name) (emitted_members k names) = Ok (Some i).
+Proof. exact ext_index_enum. Qed.
+
+(* F08-2: SEQUENCE { type BOOLEAN, ... }: the attribute itself is read back, but no member is called `type` *)
+Theorem C08_refuted_ext_escaped :
+  let a := mk_attr (PHeader S_sequence) None [] (Some (codes "type")) in
+  parse_attr CHeader 1 (print_attr a) = Ok a /\
+  Known_C08_ext_escaped (codes "type") /\
+  find_ext_index (a_ext a) (emitted_members HSequence [codes "type"]) = Err E_SYN.
+Proof. cbv zeta. split; [|split]; vm_compute; reflexivity. Qed.
+
+(* into_asn: what parse_asn_definition keeps of a field / variant attribute.  Outside [Known_C08_consts_dropped] (F08-15:
+   named bits of a BIT STRING; likewise named numbers of an INTEGER below default(..)) everything is kept *)
+Theorem C08_into_asn_keeps : forall t a,
+  a_primary a = PType t -> ~ Known_C08_untagged_complex t -> ~ Known_C08_consts_dropped a ->
+  (forall n g, t = ARef n g -> a_consts a = []) ->
+  into_asn (match t with ARef n _ => n | _ => [] end) a = Some (a_tag a, t, a_consts a).
+Proof. exact into_asn_keeps. Qed.
+
+Theorem C08_refuted_consts_dropped :
+  let bits := mk_attr (PType (ABits (SFix 16 false))) None [(codes "FIRST", 0%Z)] None in
+  let dflt := mk_attr (PType (ADef (AInt (Some 0%Z) (Some 9%Z) false) (LInt 1%Z))) None [(codes "A", 1%Z)] None in
+  parse_attr CTransparent 2 (print_attr bits) = Ok bits /\ into_asn [] bits = Some (None, ABits (SFix 16 false), []) /\
+  parse_attr CTransparent 2 (print_attr dflt) = Ok dflt /\
+  into_asn [] dflt = Some (None, ADef (AInt (Some 0%Z) (Some 9%Z) false) (LInt 1%Z), []).
+Proof. cbv zeta. split; [|split; [|split]]; vm_compute; reflexivity. Qed.
+
+(* non-vacuity: a header with every part, a field with every part, a variant *)
+Definition sample_header : attr := mk_attr (PHeader S_choice) (Some (TApplication 3)) [] (Some (codes "DarkBlue")).
+Definition sample_field : attr :=
+  mk_attr (PType (AOpt (AInt (Some (-5)%Z) (Some 5%Z) true))) (Some (TContext 2))
+          [(codes "LOW", (-5)%Z); (codes "HIGH_VALUE", 5%Z)] None.
+Definition sample_variant : attr := mk_attr (PType (ARef (codes "Other") (Some (TPrivate 9)))) (Some (TPrivate 9)) [] None.
+
+Lemma le_by_compute a b : N.leb a b = true -> a <= b.
+Proof. apply N.leb_le. Qed.
+
+Example C08_nonvacuous_attribute :
+  (attr_in_model CHeader sample_header /\ ~ Known_C08_attr sample_header) /\
+  (attr_in_model CTransparent sample_field /\ ~ Known_C08_attr sample_field) /\
+  (attr_in_model CChoiceVariant sample_variant /\ ~ Known_C08_attr sample_variant) /\
+  parse_attr CTransparent 2 (print_attr sample_field) = Ok sample_field.
+Proof.
+  assert (Hname : forall s, is_rust_ident s = true -> is_keyword s = false -> wf_name s) by (intros s H1 H2; split; assumption).
+  split; [|split; [|split]].
+  - split; [|intros H; exact H].
+    split; [exact I|]. split; [split; [reflexivity | apply le_by_compute; vm_compute; reflexivity]|]. split; [reflexivity | exact I].
+  - split.
+    + split; [split; vm_compute; reflexivity|].
+      split; [split; [reflexivity | apply le_by_compute; vm_compute; reflexivity]|]. split; [exact I|].
+      split; [reflexivity|].
+      constructor; [split; [apply Hname; vm_compute; reflexivity | vm_compute; reflexivity]|].
+      constructor; [split; [apply Hname; vm_compute; reflexivity | vm_compute; reflexivity]|]. constructor.
+    + intros [H|[H|H]]; exact H.
+  - split.
+    + split; [split; [apply Hname; vm_compute; reflexivity | apply le_by_compute; vm_compute; reflexivity]|].
+      split; [split; [reflexivity | apply le_by_compute; vm_compute; reflexivity]|]. split; exact I.
+    + intros [H|[H|H]]; exact H.
+  - vm_compute. reflexivity.
+Qed.
+
+(* ================================================================== the descriptor constants (Front/Descr.v)
+
+   [consts_of m name d] is what generate/walker.rs emits for the definition d of the Rust model, restricted to MIN / MAX /
+   EXTENSIBLE, STD_VARIANT_COUNT / VARIANT_COUNT, EXTENDED_AFTER_FIELD / FIELD_COUNT / STD_OPTIONAL_FIELDS (TAG: property
+   C16; NAME, DEFAULT_VALUE, MIN_T / MAX_T not modelled).  Tied to the crate by op 3414: for every definition op 3401
+   re-parses, the model's answer on the dump of the re-parsed Rust model is compared with the constants extracted from
+   the crate's expand() (checks/C08.py extra_checks).
+   PARTIAL in one respect: the constants are related to the RUST MODEL of the definition (what the attribute parser
+   re-derives, by the theorems above the same as what the generator started from); the step from the ASN.1 module to
+   that model (to_rust) is covered by the oracle of checks/C08.py only (F08-9 .. F08-14 live there).
+
+   C08_consts: whenever the expansion does not panic, the constants are those of the member constraint types followed by
+   the definition's own, which are: for a SEQUENCE / SET (canonically sorted!) the marker position, the number of
+   components and the number of OPTIONAL / DEFAULT components up to and including the one the marker follows
+   ([count_opt (root_fields ext fs)], all components without marker); for a tuple struct one field, optional or not;
+   for ENUMERATED / CHOICE the number of items, the number of root items (marker position + 1, all without marker) and
+   whether there is a marker. *)
+Theorem C08_consts : forall m name d cs,
+  def_in_range d -> consts_of m name d = Ok cs ->
+  exists fc, member_consts name d = Ok fc /\ cs = fc ++ own_consts_spec name d.
+Proof. exact consts_spec. Qed.
+
+(* the loop of write_sequence_constraint_insert_consts on its own: take_while(index <= ext or usize::MAX), filter, count *)
+Theorem C08_std_optional_fields : forall ext fs,
+  N.of_nat (List.length fs) <= USIZE_MAX ->
+  opt_count_from 0 (ext_limit ext) fs = count_opt (root_fields ext fs).
+Proof. exact opt_count_root. Qed.
+
+(* sort_fields_canonically never moves an extension addition in front of a root component: the count is that of the root *)
+Theorem C08_set_sort_keeps_root : forall fs e sorted,
+  sort_fields fs (Some e) = Ok sorted ->
+  opt_count_from 0 e sorted = opt_count_from 0 e fs /\ List.length sorted = List.length fs.
+Proof. exact sort_keeps_root_count. Qed.
+
+(* member constraint types: an INTEGER field (below OPTIONAL too) carries numbers::Constraint with exactly the bounds of its
+   range, a string its size bounds; a MIN / MAX constant exists exactly when the bound does *)
+Theorem C08_consts_integer : forall base fname tg k mn mx e,
+  field_consts base fname tg (RInt k mn mx e) = Ok (bound_consts (constraint_type_name base fname) TrNumbers mn mx e) /\
+  field_consts base fname tg (ROption (RInt k mn mx e)) = Ok (bound_consts (constraint_type_name base fname) TrNumbers mn mx e).
+Proof. intros. split; reflexivity. Qed.
+
+Theorem C08_consts_bounds : forall owner tr mn mx e c v,
+  In (mk_dconst owner tr c v) (bound_consts owner tr mn mx e) <->
+  (c = CMin /\ exists z, mn = Some z /\ v = VZ z) \/ (c = CMax /\ exists z, mx = Some z /\ v = VZ z) \/ (c = CExtensible /\ v = VB e).
+Proof. exact bound_consts_spec. Qed.
+
+(* non-vacuity: SET { a [1] BOOLEAN OPTIONAL, b [0] INTEGER (0..9), ..., c [2] NULL OPTIONAL }: the sort swaps a and b, one
+   optional root component *)
+Example C08_nonvacuous_consts :
+  let fs := [mk_rfield (codes "a") (ROption RBool) (Some (TContext 1)) [];
+             mk_rfield (codes "b") (RInt IntTy.U8 (Some 0%Z) (Some 9%Z) false) (Some (TContext 0)) [];
+             mk_rfield (codes "c") (ROption RNull) (Some (TContext 2)) []] in
+  consts_of dev_mode (codes "T") (DStruct true fs None (Some 1)) =
+  Ok (bound_consts (constraint_type_name (codes "T") (codes "b")) TrNumbers (Some 0%Z) (Some 9%Z) false ++
+      [mk_dconst (codes "T") TrSet CExtendedAfterField (VON (Some 1)); mk_dconst (codes "T") TrSet CFieldCount (VN 3);
+       mk_dconst (codes "T") TrSet CStdOptionalFields (VN 1)]) /\
+  option_map (map rf_name) (match sort_fields fs (Some 1) with Ok l => Some l | _ => None end) = Some [codes "b"; codes "a"; codes "c"].
+Proof. cbv zeta. split; vm_compute; reflexivity. Qed.
+
 Print Assumptions C08_reparse_type_partial.
+Print Assumptions C08_consts.
+Print Assumptions C08_std_optional_fields.
+Print Assumptions C08_set_sort_keeps_root.
+Print Assumptions C08_consts_integer.
+Print Assumptions C08_consts_bounds.
+Print Assumptions C08_reparse_attribute.
+Print Assumptions C08_reparse_attribute_wf.
+Print Assumptions C08_header_kind.
+Print Assumptions C08_ext_index_struct.
+Print Assumptions C08_ext_index_enum.
+Print Assumptions C08_refuted_ext_escaped.
+Print Assumptions C08_into_asn_keeps.
+Print Assumptions C08_refuted_consts_dropped.
 Print Assumptions C08_reparse_type_in_context.
 Print Assumptions C08_refuted_half_open_range.
 Print Assumptions C08_refuted_octet_default.
